@@ -429,18 +429,7 @@ pub fn query<A: HC>(q: &str, t: &mut Toks) -> R<String> {
             let mut a = KArgs::<A> { v: 0, v2: 0, n: 0, text: String::new(), pairing: String::new(), slice: None, seq: None };
             let utf8 = |h: Vec<u8>| String::from_utf8(h).map_err(|_| Fail::BadOp("utf8".into()));
             match op.as_str() {
-                "minnth" => {
-            // jump with nth(n), then min / max / count of what remains
-            let x = a.slice.unwrap();
-            let (mut i1, mut i2, mut i3) = (x.kmers::<K>(), x.kmers::<K>(), x.kmers::<K>());
-            let f = i1.nth(a.n).map(|k| k.bs.to_string()).unwrap_or("none".into());
-            let _ = i2.nth(a.n);
-            let _ = i3.nth(a.n);
-            let mn = i1.min().map(|k| k.bs.to_string()).unwrap_or("none".into());
-            let mx = i2.max().map(|k| k.bs.to_string()).unwrap_or("none".into());
-            format!("{f} {mn} {mx} {}", i3.count())
-        }
-        "minafter" => {
+                "minafter" | "minnth" => {
                     let n = t.num()?;
                     let s = parse_s(t)?;
                     return eval_s::<A, _>(&s, &mut |x| {
